@@ -383,7 +383,7 @@ def unit_getitem(U):
     it = Interp()
     it.contracts[B.bins] = bins_contract
     it.contracts[H._unjsonify] = lambda interp, a, k: IM.OpaqueJSON(a[0])
-    for form in ("str", "feature"):
+    for form in ("str", "feature", "feature-from-db"):
         for found in (True, False):
             key = Str("key")
             frow, rrow, rvars = SQ.sym_feature_and_relation()
@@ -396,10 +396,31 @@ def unit_getitem(U):
                 ctx.stash["row"] = row
                 db = blank_db(ghostdb.GhostConn(result_for=lambda cur, kind, q, a: [row] if found else []))
                 k = key.sym() if form == "str" else blank_feature(id=key.sym())
+                if form == "feature-from-db":
+                    k.file_order = SInt(z3.Int("k.file_order"))     # a Feature handed out by some FeatureDB carries its row number there
                 return it.call(I.FeatureDB.__getitem__, [db, k], {})
             base = "C04.getitem[%s,%s]" % (form, "found" if found else "absent")
 
             def replay(m, form=form):
+                if form == "feature-from-db":
+                    # features handed out by one database used as keys of another / after their id was changed / after the row went away
+                    mk = lambda i, s: F.Feature(seqid="c", featuretype="gene", start=s, end=s + 5, attributes={"ID": [i]})
+                    db1 = gffutils.create_db([mk("a", 1), mk("b", 11)], ":memory:")
+                    db2 = gffutils.create_db([mk("x", 1), mk("a", 11), mk("b", 21)], ":memory:")
+                    obs = {}
+                    obs["db2[db1['a']].id"] = db2[db1["a"]].id
+                    f = db1["a"]
+                    f.id = "b"
+                    obs["db1[f with id changed to 'b']"] = db1[f].id
+                    g = db1["b"]
+                    db1.delete("b", make_backup=False)
+                    try:
+                        obs["after delete('b'): db1[g]"] = db1[g].id
+                    except FeatureNotFoundError as e:
+                        fid = getattr(e, "feature_id", None)
+                        obs["after delete('b'): db1[g]"] = "FeatureNotFoundError(%s)" % (fid if isinstance(fid, str) else "<%s>" % type(fid).__name__,)
+                    exp = {"db2[db1['a']].id": "a", "db1[f with id changed to 'b']": "b", "after delete('b'): db1[g]": "FeatureNotFoundError(b)"}
+                    return {"inputs": "Feature objects obtained from a FeatureDB used as keys", "expected": exp, "observed": obs, "violates": obs != exp}
                 f = F.Feature(seqid="c", featuretype="gene", start=3, end=9, attributes={"ID": ["k1"], "Name": ["n"]})
                 f.id = "k1"
                 db = native_db([f])
